@@ -9,15 +9,15 @@ import (
 
 // Rule describes one rule IE (create / update / remove) of a request.
 type Rule struct {
-	Kind string   `json:"kind"`           // PDR FAR QER URR BAR
+	Kind string   `json:"kind"` // PDR FAR QER URR BAR
 	ID   uint64   `json:"id"`
 	URRs []uint32 `json:"urrs,omitempty"` // PDR: URR ID children (nil on update = no URR ID IE)
 	QERs []uint32 `json:"qers,omitempty"`
 	FAR  uint32   `json:"far,omitempty"`
 	// PDR
-	UEIP   bool  `json:"ueip,omitempty"`
-	Uplink bool  `json:"uplink,omitempty"`
-	NoURR  bool  `json:"no_urr_ie,omitempty"` // update PDR without any URR ID IE
+	UEIP   bool `json:"ueip,omitempty"`
+	Uplink bool `json:"uplink,omitempty"`
+	NoURR  bool `json:"no_urr_ie,omitempty"` // update PDR without any URR ID IE
 	// FAR
 	Action uint16 `json:"action,omitempty"`
 	Peer   int    `json:"peer,omitempty"` // gNB index for outer header creation (0 = none)
@@ -34,19 +34,20 @@ type Rule struct {
 
 // Op is one step of a history.
 type Op struct {
-	K      string `json:"k"` // hb assoc est mod del urep dldr
-	Node   int    `json:"node"`          // sending SMF
-	Sock   int    `json:"sock,omitempty"` // sending socket of that SMF
-	NodeID int    `json:"node_id"`       // node whose id goes into the Node ID IE (-1: omit IE)
-	Sess   int    `json:"sess"`          // session handle (est: new handle; mod/del/urep: target); -1: use Raw
-	Raw    uint64 `json:"raw,omitempty"` // raw header SEID when Sess == -1
-	CP     uint64 `json:"cp,omitempty"`  // est: CP-SEID
-	NoFSEID bool  `json:"no_fseid,omitempty"`
-	Create []Rule   `json:"create,omitempty"`
-	Update []Rule   `json:"update,omitempty"`
-	Remove []Rule   `json:"remove,omitempty"`
-	Query  []uint32 `json:"query,omitempty"`
-	Takeover int    `json:"takeover,omitempty"` // mod: node index whose id is put in a Node ID IE (0 = none; index+1)
+	K        string   `json:"k"`              // hb assoc est mod del urep dldr
+	Node     int      `json:"node"`           // sending SMF
+	Sock     int      `json:"sock,omitempty"` // sending socket of that SMF
+	NodeID   int      `json:"node_id"`        // node whose id goes into the Node ID IE (-1: omit IE)
+	Sess     int      `json:"sess"`           // session handle (est: new handle; mod/del/urep: target); -1: use Raw
+	Raw      uint64   `json:"raw,omitempty"`  // raw header SEID when Sess == -1
+	CP       uint64   `json:"cp,omitempty"`   // est: CP-SEID
+	NoFSEID  bool     `json:"no_fseid,omitempty"`
+	Create   []Rule   `json:"create,omitempty"`
+	Update   []Rule   `json:"update,omitempty"`
+	Remove   []Rule   `json:"remove,omitempty"`
+	Query    []uint32 `json:"query,omitempty"`
+	Takeover int      `json:"takeover,omitempty"` // mod: node index whose id is put in a Node ID IE (0 = none; index+1)
+	Ref      int      `json:"ref,omitempty"`      // dup: index of the step whose request is retransmitted
 	// reports
 	URRs   []uint32 `json:"rep_urrs,omitempty"`
 	Answer string   `json:"answer,omitempty"` // accept seid0 ignore
@@ -59,6 +60,7 @@ func (o Op) String() string { return J(o) }
 
 type History struct {
 	Nodes int  `json:"nodes"`
+	Extra int  `json:"extra_nodes,omitempty"` // SMFs that are never associated themselves (take-over targets)
 	Ops   []Op `json:"ops"`
 }
 
@@ -204,6 +206,7 @@ type GenProfile struct {
 	URRHeavy       bool
 	ExtraSock      bool // use second sockets (same IP, other port)
 	DLDR           bool
+	Dups           int // weight of retransmitted requests
 }
 
 type genSess struct {
@@ -211,6 +214,7 @@ type genSess struct {
 	node  int
 	cp    uint64
 	alive bool
+	taken bool
 	rules map[string]map[uint64]bool
 }
 
@@ -368,13 +372,14 @@ func Generate(r *Rng, p GenProfile) *History {
 	for len(g.h.Ops) < nops {
 		live := g.liveSessions()
 		w := []int{
-			2,                           // 0 hb
-			p.Reassoc,                   // 1 assoc
-			6,                           // 2 est
-			p.RuleChurn,                 // 3 mod
-			3,                           // 4 del
-			p.Reports,                   // 5 usage report
-			p.Negative,                  // 6 negative
+			2,           // 0 hb
+			p.Reassoc,   // 1 assoc
+			6,           // 2 est
+			p.RuleChurn, // 3 mod
+			3,           // 4 del
+			p.Reports,   // 5 usage report
+			p.Negative,  // 6 negative
+			p.Dups,      // 7 retransmission of an earlier request
 		}
 		if p.OneSession && len(g.sess) > 0 {
 			w[2] = 0
@@ -418,8 +423,10 @@ func Generate(r *Rng, p GenProfile) *History {
 			}
 			// CP-SEIDs collide across peers but not among live sessions of one peer
 			cp := uint64(0x10 + r.Intn(4))
+			// (a taken-over session keeps the address of its old node: its CP-SEID is not reused either,
+			// which peer "matches" a SEID-0 answer would otherwise be open)
 			for _, s := range live {
-				if s.node == n && s.cp == cp {
+				if (s.node == n || s.taken) && s.cp == cp {
 					cp = uint64(0x100 + len(g.sess))
 				}
 			}
@@ -438,6 +445,24 @@ func Generate(r *Rng, p GenProfile) *History {
 		case 3:
 			s := live[r.Intn(len(live))]
 			o := Op{K: "mod", Node: s.node, NodeID: -1, Sess: s.h}
+			if p.Takeover && g.h.Extra == 0 && r.Chance(1, 6) {
+				// a new SMF (fresh node id) takes the session over; only generated when the old node owns no
+				// other live session, so that "which sessions move" is not in question
+				others := 0
+				for _, x := range live {
+					if x.node == s.node && x != s {
+						others++
+					}
+				}
+				if others == 0 && s.node < nodes {
+					g.h.Extra = 1
+					o.Takeover = nodes + 1
+					g.assoc[s.node] = false
+					g.assoc[nodes] = true
+					s.node = nodes
+					s.taken = true
+				}
+			}
 			if p.ExtraSock && r.Chance(1, 6) {
 				o.Sock = 1
 			}
@@ -498,12 +523,26 @@ func Generate(r *Rng, p GenProfile) *History {
 			}
 			switch r.Intn(8) {
 			case 0:
-				o.Answer = "seid0"
-				s.alive = false
+				if !s.taken { // after a take-over the peer match of a SEID-0 answer is not fixed by the statement
+					o.Answer = "seid0"
+					s.alive = false
+				}
 			case 1:
 				o.Answer = "ignore"
 			}
 			add(o)
+		case 7:
+			var cand []int
+			for j, o := range g.h.Ops {
+				if o.K == "hb" || o.K == "assoc" || o.K == "est" || o.K == "mod" || o.K == "del" {
+					cand = append(cand, j)
+				}
+			}
+			if len(cand) == 0 {
+				continue
+			}
+			j := cand[r.Intn(len(cand))]
+			add(Op{K: "dup", Node: g.h.Ops[j].Node, Sock: g.h.Ops[j].Sock, NodeID: -1, Ref: j})
 		case 6:
 			n := r.Intn(nodes)
 			switch r.Intn(7) {
